@@ -24,6 +24,11 @@ TRACE_FILES = ("engine/engine.py", "engine/method_manager.py", "engine/command_m
                "engine/internal_commands_impl.py", "lang/exec/runlog.py", "lang/model/ast.py")
 
 
+# functions whose entry marks a phase boundary of Engine.tick (pre-emption right there is the interesting schedule)
+PHASES = ("update_calculated_tags", "execute_commands", "notify_tag_updates", "write_process_image", "_execute_command",
+          "_execute_uod_command", "_execute_internal_command", "visit_children", "_visit_children", "collect_tag_updates")
+
+
 class Scheduler:
     def __init__(self, switch_points: dict[str, list[int]]):
         self.cv = threading.Condition()
@@ -34,6 +39,7 @@ class Scheduler:
         self.other = {"T": "R", "R": "T"}
         self.switches = 0
         self.deadlock = False
+        self.phase_index: dict[str, int] = {}     # first traced-line index of T inside a named function of the tick
 
     def start(self, first: str):
         with self.cv:
@@ -169,6 +175,9 @@ class SimT(Simulator):
         else:
             switches = {"T": sorted([rng.random(), rng.random()]), "R": [rng.random()]}
         handoff = [rng.random() < 0.75 for _ in range(4)]
+        if rng.random() < 0.35:
+            # pre-empt the tick exactly at (or a few lines around) the entry of one of its phases
+            switches = dict(switches, T_phase=[rng.choice(PHASES[:7]), rng.choice([-2, -1, 0, 0, 1, 2])])
         return {"cfg": {"wellformed": True, "runlog_every": 1000}, "method": method, "prefix": prefix, "request": req,
                 "switch_fractions": switches, "handoff": handoff, "ops": []}
 
@@ -256,6 +265,10 @@ class SimT(Simulator):
         sf = plan["switch_fractions"]
         sp = {"T": sorted({min(n_t - 1, int(f * n_t)) for f in sf["T"]}) if n_t else [],
               "R": sorted({min(n_r - 1, int(f * n_r)) for f in sf["R"]}) if n_r else []}
+        ph = sf.get("T_phase")
+        if ph and n_t and ph[0] in getattr(self, "_phase_index", {}):
+            sp["T"] = sorted(set(sp["T"][1:]) | {max(0, min(n_t - 1, self._phase_index[ph[0]] + ph[1]))})
+            res.probe("phase_boundary_preemption")
         w = self._prefix_world(plan, res, rec)
         try:
             out = self._interleaved(w, plan, sp, res)
@@ -303,6 +316,7 @@ class SimT(Simulator):
         w = self._prefix_world(plan, res, rec)
         try:
             out = self._interleaved(w, plan, {"T": [], "R": []}, res, first="R")
+            self._phase_index = out["phase_index"]
             return out["count"]["T"], out["count"]["R"]
         finally:
             w.close()
@@ -324,6 +338,8 @@ class SimT(Simulator):
 
             def tracer(frame, event, arg):
                 if event == "call" and frame.f_code.co_filename in files:
+                    if me == "T" and frame.f_code.co_name in PHASES:
+                        sched.phase_index.setdefault(frame.f_code.co_name, sched.count["T"])
                     return local
                 return None
             return tracer
@@ -362,4 +378,5 @@ class SimT(Simulator):
         out["contended"] = lock.contended
         out["handoffs"] = lock.handoffs_done
         out["count"] = dict(sched.count)
+        out["phase_index"] = dict(sched.phase_index)
         return out
